@@ -6,7 +6,7 @@ from hypothesis import strategies as st
 from trie.smt import SparseMerkleTree, calc_root
 
 from ..ref.smt import RefSMT, fold_root
-from ..util import Info, Raised, expect, expect_eq, impl
+from ..util import Info, Raised, as_bytes, as_bytes_tuple, expect, expect_eq, impl
 
 ID = "C14"
 LEVEL = "exploration"
@@ -137,7 +137,7 @@ def resolve_smt_key(spec, ks, base, written):
 
 def check_tree(tree, ref, model, touched_keys, root0, info, label):
     want_root = ref.root(model)
-    expect_eq("root-is-merkle-root", bytes(tree.root_hash), want_root, f"root_hash {label}")
+    expect_eq("root-is-merkle-root", as_bytes("root-is-merkle-root", tree.root_hash, "root_hash"), want_root, f"root_hash {label}")
     for k in touched_keys:
         v = model.get(k, ref.default)
         got = impl("get", tree.get, k, allowed=(KeyError,))
@@ -158,9 +158,9 @@ def check_tree(tree, ref, model, touched_keys, root0, info, label):
             expect_eq("contains-matches", inn, True, f"{k.hex()} in tree {label}")
             br = impl("branch", tree.branch, k)
             _, sibs, _ = ref.path_and_siblings(model, k)
-            expect_eq("branch-is-sibling-list", tuple(bytes(x) for x in br), sibs, f"branch({k.hex()}) {label}")
+            expect_eq("branch-is-sibling-list", as_bytes_tuple("branch-is-sibling-list", br, "branch()"), sibs, f"branch({k.hex()}) {label}")
             cr = impl("calc_root", calc_root, k, v, br)
-            expect_eq("calc_root-verifies", bytes(cr), want_root, f"calc_root({k.hex()}, value, branch) {label}")
+            expect_eq("calc_root-verifies", as_bytes("calc_root-verifies", cr, "calc_root()"), want_root, f"calc_root({k.hex()}, value, branch) {label}")
             expect_eq("calc_root-verifies", fold_root(k, v, tuple(br)), want_root, f"independent fold of branch({k.hex()}) {label}")
 
 
@@ -178,7 +178,7 @@ def run_case(case):
     else:
         tree = impl("construct", SparseMerkleTree, key_size=ks, default=default)
     root0 = ref.root({})
-    expect_eq("initial-root", bytes(tree.root_hash), root0, "root of the fresh tree")
+    expect_eq("initial-root", as_bytes("root-is-merkle-root", tree.root_hash, "root_hash"), root0, "root of the fresh tree")
     model = {}
     written = []
     delete_nonblank = False
@@ -205,7 +205,7 @@ def run_case(case):
             written.append(k)
         if ret is not None:
             path, _, _ = ref.path_and_siblings(model, k)
-            expect_eq("update-returns-path-hashes", tuple(bytes(x) for x in ret), path,
+            expect_eq("update-returns-path-hashes", as_bytes_tuple("update-returns-path-hashes", ret, "returned path hashes"), path,
                       f"{kind}({k.hex()}) return value")
         neighbours = [k, _flipbit(k, -1), _flipbit(k, 0)] + written[-4:]
         check_tree(tree, ref, model, neighbours, root0, info, f"after op {no}")
@@ -215,6 +215,7 @@ def run_case(case):
         info.label("from_db-default-args")
     else:
         view = impl("from_db", SparseMerkleTree.from_db, tree.db, tree.root_hash, ks, default)
+    expect("from_db-reads-identically", isinstance(view, SparseMerkleTree), lambda: f"from_db returned {view!r}")
     check_tree(view, ref, model, written, root0, info, "through from_db")
     # writes through the from_db view behave like writes to a tree of that configuration
     if written:
@@ -223,18 +224,18 @@ def run_case(case):
         ret = impl("delete", view.delete, vk)
         vmodel[vk] = default
         path, _, _ = ref.path_and_siblings(vmodel, vk)
-        expect_eq("update-returns-path-hashes", tuple(bytes(x) for x in ret), path, "from_db view delete() return value")
+        expect_eq("update-returns-path-hashes", as_bytes_tuple("update-returns-path-hashes", ret, "returned path hashes"), path, "from_db view delete() return value")
         check_tree(view, ref, vmodel, [vk] + written[:2], root0, info, "after a delete through the from_db view")
         ret = impl("set", view.set, vk, b"via-view")
         vmodel[vk] = b"via-view"
         check_tree(view, ref, vmodel, [vk], root0, info, "after a set through the from_db view")
-        expect_eq("root-is-merkle-root", bytes(tree.root_hash), ref.root(model), "original tree's root after writes through a view")
+        expect_eq("root-is-merkle-root", as_bytes("root-is-merkle-root", tree.root_hash, "root_hash"), ref.root(model), "original tree's root after writes through a view")
     check_tree(tree, ref, model, written, root0, info, "at the end")
     # clear everything => initial root
     for k in written:
         impl("delete", tree.delete, k)
         model[k] = default
-    expect_eq("all-cleared-is-initial-root", bytes(tree.root_hash), root0, "root after clearing every key")
+    expect_eq("all-cleared-is-initial-root", as_bytes("root-is-merkle-root", tree.root_hash, "root_hash"), root0, "root after clearing every key")
     ints = [int.from_bytes(k, "big") for k in written]
     deep = any((a ^ b) and (a ^ b).bit_length() <= ks * 8 - 8 for a, b in itertools.combinations(ints, 2))
     info.label("deep-divergence", deep)
